@@ -12,7 +12,8 @@ sys.path.insert(0, HERE)
 
 ALLOWED_AXIOMS = {'propext', 'Classical.choice', 'Quot.sound'}
 
-def _run_shard(prop, tier, seed):
+def _run_shard(prop, tier, seed, k=0, shards=1):
+    os.environ['VERIF_SHARD'] = '%d/%d' % (k, shards)
     import props, props2
     for mod in (props, props2):
         f = getattr(mod, 'c' + prop[1:], None)
@@ -81,7 +82,7 @@ def main():
             import multiprocessing as mp
             shards = int(os.environ.get('VERIF_SHARDS', '8'))
             with mp.get_context('fork').Pool(shards) as pool:
-                parts = pool.starmap(_run_shard, [(prop, a.tier, seed * 1009 + k * 7919 + (0 if k else 0)) if k else (prop, a.tier, seed) for k in range(shards)])
+                parts = pool.starmap(_run_shard, [(prop, a.tier, (seed * 1009 + k * 7919) if k else seed, k, shards) for k in range(shards)])
             res = parts[0]
             for r in parts[1:]:
                 res.evaluations += r.evaluations
